@@ -5,7 +5,7 @@ From Coq Require Import List ZArith Bool Lia ZifyBool.
 From Coq.Strings Require Import Byte.
 Import ListNotations.
 From Zap Require Import Base.Wire C13.Model.
-From Zap Require Export C13.Multi C13.Comb C13.Writers C13.Mutex.
+From Zap Require Export C13.Multi C13.Comb C13.Writers C13.Mutex C13.Handles.
 Local Open Scope Z_scope.
 
 Lemma sx_eqb_refl : forall x, sx_eqb x x = true.
@@ -56,9 +56,24 @@ Proof.
   apply andb_true_iff; split; [apply andb_true_iff; split|reflexivity]; lia.
 Qed.
 
+(* several handles onto one sink: whatever schedule the model is evaluated on (the one the case
+   carries plus a completion, or the gate schedule), at most one call is inside the sink, and
+   the number of sink calls is the one the derivation program gives *)
+Lemma wire_handles i : spec_handles i (model_handles i) = true.
+Proof.
+  unfold spec_handles, model_handles.
+  set (r := sx_z (sx_nth i 2)). set (ds := map dec_dstep (sx_l (sx_nth i 3))). set (prog := dec_hprog (sx_nth i 4)).
+  set (sched := if wkind i =? 1 then _ else _).
+  destruct (handles_mutex r ds prog sched) as (_ & Hm & _). unfold handle_prog, handle_codes in Hm.
+  cbv zeta. set (s := grun _ sched) in *.
+  cbn [sx_nth sx_l nth sx_z of_nat]. rewrite (prog_begins_reach Reuse r ds prog), sx_eqb_refl.
+  apply andb_true_iff; split; [apply andb_true_iff; split|reflexivity]; lia.
+Qed.
+
 Theorem spec_model i : wf i = true -> spec i (model i) = true.
 Proof.
   unfold wf, spec, model. intros H.
+  destruct (kind i =? 4); [apply wire_handles|].
   destruct (kind i =? 1).
   - unfold wf_comb in H. apply andb_true_iff in H as [H Hd]. apply andb_true_iff in H as [_ Ht].
     now apply spec_comb_model.
